@@ -8,8 +8,9 @@
     re-creating a deleted top-level file removes the marker and yields an empty file, whatever the
     lower layer holds; re-creating a deleted top-level directory removes the marker and puts an empty
     directory into the upper layer, and a directory of the upper layer whose lower-layer children
-    are all marked lists NOTHING (a re-created directory is empty).  Removal of directories and
-    subtrees and deeper re-creations are decided by the correspondence. *)
+    are all marked lists NOTHING (a re-created directory is empty).  Removing a lower-only directory whose entries
+    are all deleted sets its marker likewise.  Whole-subtree removal (the walk of remove_dir_all) and
+    deeper re-creations are decided by the correspondence. *)
 From stdpp Require Import gmap list.
 From Coq Require Import NArith ZArith.
 From VFS Require Import Core.Types Core.Prog Core.Calls Base.MemFS Base.Handles Base.Store Layer.VfsPath Layer.Overlay
@@ -65,6 +66,23 @@ Theorem C10_removal_sets_marker : forall lg ft (s0 s1 : gmap (list (list N)) mem
     (forall q, q ∉ prefixes (whiteout_path (v0, []) p) -> s0' !! q = s0 !! q) /\
     wf s0'.
 Proof. exact remove_lower_file_sets_marker. Qed.
+
+(** the same for a directory that exists only in the lower layer and whose entries have all been
+    removed through the overlay (the last step of a remove_dir_all): remove_dir sets its marker,
+    changes nothing else - the lower layer not at all -, after which C10_removed_is_absent applies *)
+Theorem C10_dir_removal_sets_marker : forall lg ft (s0 s1 : gmap (list (list N)) memfile) hs (p : path),
+  wf s0 -> p <> [] ->
+  s0 !! whiteout_path (v0, []) p = None -> s0 !! p = None -> is_dir s1 p ->
+  (s0 !! (whiteout_name :: p) = None \/ is_dir s0 (whiteout_name :: p)) ->
+  (forall c, is_Some (s1 !! (p ++ [c])) -> is_Some (s0 !! whiteout_path (v0, []) (p ++ [c]))) ->
+  Forall (not_file s0) (prefixes (removelast (whiteout_path (v0, []) p))) ->
+  exists s0',
+    run bhandler (ovl_impl (v0, []) [(v1, [])] (CRemoveDir p)) (mstore2 s0 s1 hs lg ft) =
+      (mstore2 s0' s1 (hs ++ [HClosed]) lg ft, Ok tt) /\
+    is_Some (s0' !! whiteout_path (v0, []) p) /\
+    (forall q, q ∉ prefixes (whiteout_path (v0, []) p) -> s0' !! q = s0 !! q) /\
+    wf s0'.
+Proof. exact remove_lower_dir_sets_marker. Qed.
 
 (** and from then on the overlay does not see the file although the lower layer still has it *)
 Theorem C10_removed_is_absent : forall lg ft (s1 s0' : gmap (list (list N)) memfile) (hs' : list hstate) (p : path),
@@ -125,3 +143,4 @@ Print Assumptions C10_recreation_clears_marker.
 Print Assumptions C10_recreated_file_is_fresh.
 Print Assumptions C10_recreated_dir_clears_marker.
 Print Assumptions C10_recreated_dir_is_empty.
+Print Assumptions C10_dir_removal_sets_marker.
